@@ -94,3 +94,41 @@ M('C13', 'c13-lock-released-early', 'openhtf/plugs/usb/adb_message.py',
   "        timeout = timeouts.PolledTimeout.from_millis(10)\n      self._transport.write(message.data, timeout.remaining_ms)",
   "        timeout = timeouts.PolledTimeout.from_millis(10)\n    self._transport.write(message.data, timeout.remaining_ms)",
   'payload written after the writer lock was released')
+
+# ---------------------------------------------------------------- C16
+M('C16', 'c16-chunk-plus-one', 'openhtf/plugs/usb/fastboot_protocol.py',
+  "      tmp = data.read(FASTBOOT_DOWNLOAD_CHUNK_SIZE_KB * 1024)",
+  "      tmp = data.read(FASTBOOT_DOWNLOAD_CHUNK_SIZE_KB * 1024 + 1)",
+  'chunks one byte larger than configured')
+M('C16', 'c16-send-before-size-check', 'openhtf/plugs/usb/fastboot_protocol.py',
+  "    if accepted_size != source_len:\n      raise usb_exceptions.FastbootTransferError(\n          'Device refused to download %s bytes of data (accepts %s bytes)' %\n          (source_len, accepted_size))\n    self._write(source_file, accepted_size, progress_callback)",
+  "    self._write(source_file, source_len, progress_callback)\n    if accepted_size != source_len:\n      raise usb_exceptions.FastbootTransferError(\n          'Device refused to download %s bytes of data (accepts %s bytes)' %\n          (source_len, accepted_size))",
+  'image sent before the announced size is compared')
+M('C16', 'c16-fail-as-info', 'openhtf/plugs/usb/fastboot_protocol.py',
+  "      elif header == 'FAIL':\n        info_cb(FastbootMessage(remaining, header))\n        raise usb_exceptions.FastbootRemoteFailureError('FAIL: %s' % remaining)",
+  "      elif header == 'FAIL':\n        info_cb(FastbootMessage(remaining, header))",
+  'FAIL treated like INFO')
+M('C16', 'c16-progress-abort', 'openhtf/plugs/usb/fastboot_protocol.py',
+  "        _LOG.exception('Progress callback raised an exception. %s',\n                       progress_callback)\n        continue",
+  "        raise",
+  'raising progress callback aborts the transfer')
+M('C16', 'c16-progress-not-cumulative', 'openhtf/plugs/usb/fastboot_protocol.py',
+  "      current += yield",
+  "      current = yield",
+  'progress reports chunk size instead of cumulative bytes')
+M('C16', 'c16-mismatch-ignored', 'openhtf/plugs/usb/fastboot_protocol.py',
+  "        if header != expected_header:\n          raise usb_exceptions.FastbootStateMismatchError(",
+  "        if header != expected_header and header != 'DATA':\n          raise usb_exceptions.FastbootStateMismatchError(",
+  'out-of-place DATA accepted as final response')
+M('C16', 'c16-arg-sep', 'openhtf/plugs/usb/fastboot_protocol.py',
+  "      command = '%s:%s' % (command, arg)",
+  "      command = '%s %s' % (command, arg)",
+  'command and argument joined by a space')
+M('C16', 'c16-size-decimal', 'openhtf/plugs/usb/fastboot_protocol.py',
+  "    self._protocol.send_command('download', '%08x' % source_len)",
+  "    self._protocol.send_command('download', '%08d' % source_len)",
+  'image size announced in decimal')
+M('C16', 'c16-info-after-okay-swallowed', 'openhtf/plugs/usb/fastboot_protocol.py',
+  "      if header == 'INFO':\n        info_cb(FastbootMessage(remaining, header))",
+  "      if header == 'INFO':\n        if not remaining.endswith('3'): info_cb(FastbootMessage(remaining, header))",
+  'one particular INFO packet is not forwarded')
